@@ -505,7 +505,7 @@ def build_store(c, arrays, chunks, tmpdir):
     from katdal.chunkstore_dict import DictChunkStore
     from katdal.chunkstore_npy import NpyFileChunkStore
     store = NpyFileChunkStore(tmpdir) if c['store'] == 'npy' else DictChunkStore()
-    prefix = 'cb-c15'
+    prefix = c.get('prefix', 'cb-c15')
     chunk_info = {}
     push = []
     for k, a in arrays.items():
@@ -544,6 +544,17 @@ def run_vfw_impl(c, chunks):
             res = dict(weights=vfw.weights.compute(), vis=vfw.vis.compute(),
                        unscaled=None if vfw.unscaled_weights is None else vfw.unscaled_weights.compute(),
                        wdtype=str(vfw.weights.dtype))
+            if c['vv'] and corrprods is not None and c['store'] == 'dict':
+                # a second capture block with the same products and other data, evaluated in the same dask graph
+                arrays2 = dict(arrays, correlator_data=(vis * np.float32(1.5) + np.float32(0.25)).astype(np.complex64))
+                store2, info2 = build_store(dict(c, prefix='cb2-c15'), arrays2, chunks, None)
+                vfw2 = ChunkStoreVisFlagsWeights(store2, info2, corrprods, **kw)
+                alone = (vfw2.vis.compute(), vfw2.weights.compute())
+                joint = da.compute(vfw.vis, vfw2.vis, vfw.weights, vfw2.weights)
+                ok = (np.array_equal(joint[0], res['vis'], equal_nan=True) and np.array_equal(joint[1], alone[0], equal_nan=True)
+                      and np.array_equal(joint[2], res['weights'], equal_nan=True)
+                      and np.array_equal(joint[3], alone[1], equal_nan=True))
+                res['pair_ok'] = bool(ok)
     finally:
         if tmpdir:
             shutil.rmtree(tmpdir, ignore_errors=True)
@@ -571,6 +582,11 @@ def judge_vfw(ctx, c, rep_spec, rep_mirror):
             ctx.advise(f'no-corrprods: model {rep_spec}, implementation returned data')
             return [], False
         return [(f'model answered {rep_spec} but the implementation returned data', c)], False
+    if impl.get('pair_ok') is not None:
+        ctx.tag('vfw-two-data-sets-one-graph')
+        if not impl['pair_ok']:
+            return [("two capture blocks with the same correlation products opened with van_vleck='autocorr' and computed "
+                     'in one dask graph: visibilities / weights of one of them differ from what it gives on its own', c)], True
     ws, us, vre, vim = rep_spec.split('|')
     ctx.tag('vfw-stored-scaled' if c['scaled'] else 'vfw-stored-unscaled', 'vfw-vv' if c['vv'] else 'vfw-novv',
             f"vfw-bchunks-{min(3, len(c['chunks']['correlator_data'][2]))}", 'vfw-' + c['store'])
@@ -828,6 +844,10 @@ def gen_avg(rng, big=False):
     re = [rng.randint(-32, 32) / 4 for _ in range(n)]
     im = [rng.randint(-32, 32) / 4 for _ in range(n)]
     w = [rng.choice([0.0, 0.25, 0.5, 1.0, 2.0, 3.0, 7.5]) for _ in range(n)]
+    if rng.random() < 0.2:
+        # weights scaled by a negative autocorrelation are negative: bins whose weights sum to a negative number (or
+        # cancel to zero) are still weight-averaged (resp. fall back to the plain mean)
+        w = [rng.choice([-2.0, -1.0, -0.5, 0.5, 1.0, 2.0]) for _ in range(n)]
     return dict(kind='avg', T=T, F=F, B=B, re=re, im=im, w=w, flags=flags,
                 timeav=rng.choice([1, 2, 2, 3, 3, 4, 5, rng.randint(1, 10)]),
                 chanav=rng.choice([1, 2, 2, 3, 3, 4, 5, rng.randint(1, 10)]), flagav=rng.random() < 0.5)
